@@ -36,6 +36,10 @@ def scenarios(tier):
   out.append(('mux 2 endpoints, 4 calls, one completes before the others overlap',
               {'stack': 'mux', 'endpoints': 2, 'ops': [('call', 'u0'), ('call', 'u1'), ('call', 'u2'), ('call', 'u3')],
                'faults': ['drop'], 'timeout': 0.5025}))
+  # tags beyond 16 bits (the tag counter jumps as if the tags in between were held by requests that were never answered)
+  out.append(('mux 1 endpoint, 3 calls, a tag above 65535 next to tag 2',
+              {'stack': 'mux', 'endpoints': 1, 'ops': [('call', 'g0', 0.2025), ('call', 'g1'), ('call', 'g2')],
+               'faults': ['drop'], 'timeout': 0.5025, 'tag_jump': [2, 65538]}))
   if tier == 'thorough':
     out.append(('thrift pooled connection, split replies',
                 {'stack': 'thrift', 'endpoints': 1, 'ops': [('call', 's0', 0.1025), ('call', 's1')],
